@@ -26,6 +26,8 @@ Props/C18.lean are re-checked against what the source says on every run:
   pony/orm/integration/bottle_plugin.py  is_allowed_exception
         isAllowedException    the returned boolean expression over isinstance(e, HTTPResponse) / isinstance(e, HTTPError)
         bottleApplyKeywords   keyword names of the db_session(...) call in PonyPlugin.apply
+  pony/orm/core.py  Entity._save_created_ / _save_updated_ / _save_deleted_
+        rowSavesStartTransaction   every `_exec_sql(...)` call of the three row-saving methods passes start_transaction=True
 
 Anything outside the recognised shapes raises Untranslatable -> {'ok': False}: the framework then reports the property as no
 longer shown (the hand-written remainder of the model was validated against a different shape of the source).
@@ -227,6 +229,18 @@ def build(repo):
     if len(inside) != 1 or len(afterw) != 1: raise Untranslatable('wrapped_interact: expected one counter assignment on entry and one in finally')
     info.update(genCounterInside=inside[0], genCounterAfter=afterw[0])
 
+    # ---- Entity._save_created_ / _save_updated_ / _save_deleted_: every statement that writes a row asks for the session's
+    # transaction itself (`start_transaction=True`) — a per-object obj.flush() does not go through SessionCache.flush
+    ent = find(core, 'Entity')
+    saves = {}
+    for name in ('_save_created_', '_save_updated_', '_save_deleted_'):
+        fn = find(ent, name)
+        calls = [c for c in ast.walk(fn) if isinstance(c, ast.Call) and u(c.func).endswith('._exec_sql')]
+        if not calls: raise Untranslatable('%s: no _exec_sql call' % name)
+        saves[name] = all(any(kw.arg == 'start_transaction' and isinstance(kw.value, ast.Constant) and kw.value.value is True
+                              for kw in c.keywords) for c in calls)
+    info['rowSavesStartTransaction'] = saves
+
     # ---- Flask ---------------------------------------------------------------------------------------------------
     fl = ast.parse(open(os.path.join(repo, 'pony/flask/__init__.py')).read())
     ex = find(fl, '_exit_session')
@@ -292,6 +306,8 @@ def render(info):
          '/-- `wrapped_interact`: the counter while the generator runs / after the step -/',
          'def genCounterInside : Int := %d' % info['genCounterInside'],
          'def genCounterAfter : Int := %d' % info['genCounterAfter'], '',
+         '/-- `_save_created_` / `_save_updated_` / `_save_deleted_`: every `_exec_sql` call there passes start_transaction=True -/',
+         'def rowSavesStartTransaction : Bool := ' + b(all(info['rowSavesStartTransaction'].values())), '',
          '/-- Flask `_exit_session`: `session.__exit__` receives the exception type when the request failed -/',
          'def flaskExitPassesType : Bool := ' + b(info['flaskExitPassesType']), '',
          '/-- Bottle `is_allowed_exception` over isinstance(e, HTTPResponse) / isinstance(e, HTTPError); the plugin passes it as `allowed_exceptions` only -/',
